@@ -1198,11 +1198,11 @@ parser! {
     rule task_name() -> Id = identifier()
     // TODO add single and interval
     pub rule task_initialization() -> (u32, Option<DurationLiteral>) = tok(TokenType::LeftParen) _ interval:task_initialization_interval()? _ priority:task_initialization_priority() _ tok(TokenType::RightParen) { (priority, interval) }
-    rule task_initialization_interval() -> DurationLiteral = id_eq("INTERVAL") _ tok(TokenType::Assignment) _ source:data_source() _ tok(TokenType::Comma) {
+    rule task_initialization_interval() -> DurationLiteral = id_eq("INTERVAL") _ tok(TokenType::Assignment) _ source:data_source() _ tok(TokenType::Comma) {?
       // TODO The interval may not necessarily be a duration, but for now, only support Duration types
       match source {
-        ConstantKind::Duration(duration) => duration,
-        _ => panic!("Only supporting Duration types for now"),
+        ConstantKind::Duration(duration) => Ok(duration),
+        _ => Err("duration"),
       }
      }
     rule task_initialization_priority() -> u32 = id_eq("PRIORITY") _ tok(TokenType::Assignment) _ i:integer() {? i.value.try_into().map_err(|e| "priority") }
